@@ -341,6 +341,7 @@ fn run_route_shape(t: &Tape, want_desc: bool) -> CaseResult {
         AssetInfo::NativeToken { denom: "ua".into() },
         AssetInfo::NativeToken { denom: "uab".into() },
         AssetInfo::NativeToken { denom: "ub".into() },
+        AssetInfo::NativeToken { denom: "UA".into() }, // a different coin than "ua"
         AssetInfo::Token { contract_addr: "contract3".into() },
         AssetInfo::Token { contract_addr: "contract4".into() },
     ];
